@@ -38,7 +38,8 @@ Kinds(q) == [i \in 1..Len(q) |-> q[i].k]
 View4(a) == IF Has(inv, a) THEN [has |-> TRUE, c |-> inv[a].c, f |-> inv[a].f] ELSE [has |-> FALSE, c |-> NONE, f |-> NONE]
 Mismatch(ev, prev) ==
   {k \in {"structure_to_rt", "structure_to_nrt", "unassigned_controller_not_announced", "backend_messages", "value_out_of_range", "value_not_monotone", "value_not_the_linear_map", "learn_queue", "bindings",
-          "LearnOrder", "UniqueIds", "GenConsistent", "DrivesItsAddress", "AssignedIsLive", "NoStuckController"} :
+          "LearnOrder", "UniqueIds", "GenConsistent", "DrivesItsAddress", "AssignedIsLive", "NoStuckController",
+          "real_unique_ids", "real_drives_bound_address"} :
    ~ CASE k = "structure_to_rt"  -> ev.to_rt = Kinds(toRT)
        [] k = "structure_to_nrt" -> ev.to_nrt = toNRT
        \* the property's first step: a controller that is neither assigned nor already announced arrives while the realtime half has been told to
@@ -64,6 +65,14 @@ Mismatch(ev, prev) ==
        [] k = "GenConsistent" -> GenConsistent
        [] k = "DrivesItsAddress" -> DrivesItsAddress
        [] k = "AssignedIsLive" -> AssignedIsLive
-       [] k = "NoStuckController" -> NoStuckController }
+       [] k = "NoStuckController" -> NoStuckController
+       \* the same two statements on what the REAL non-realtime half reports, whatever the model thinks (they keep their meaning after
+       \* model and code have parted ways over the messages the halves exchange): no controller is assigned twice, and a parameter message
+       \* goes to an address that has this controller assigned
+       [] k = "real_unique_ids" -> \A i, j \in 1..Len(ev.view) : /\ (i # j => (ev.view[i].c = NONE \/ (ev.view[i].c # ev.view[j].c /\ ev.view[i].c # ev.view[j].f)))
+                                                                /\ (i # j => (ev.view[i].f = NONE \/ (ev.view[i].f # ev.view[j].f)))
+                                                                /\ (ev.view[i].c = NONE \/ ev.view[i].c # ev.view[i].f)
+       [] k = "real_drives_bound_address" -> (ev.op = "cc" /\ Quiet /\ ev.to_rt = <<>> /\ ev.to_nrt = <<>>) =>
+                                               \A o \in 1..Len(ev.out) : \E i \in 1..Len(ev.view) : ev.view[i].a = ev.out[o].a /\ (ev.view[i].c = ev.id \/ ev.view[i].f = ev.id) }
 Judge == (l <= 1) \/ LET m == Mismatch(Evs[l - 1], prevv) IN m = {} \/ PrintT(<<"REJECT", x, m, l - 1>>)
 =============================================================================
